@@ -43,6 +43,8 @@ ASSUMPTIONS = [
     'reference geometry = ref/geomodel.py on node coordinates converted exactly to Fractions; comparisons of areas '
     'and volumes at 1e-9 relative; "vertex in or on the old column" within 1e-9 of the geometry size (mid-side nodes '
     'are rounded floats); hanging-node tolerance 1e-7 absolute as in DESIGN',
+    'areas and volumes are also allowed 4 units in the last place of the largest coordinate times the length of the '
+    'sides concerned (new node coordinates are rounded floats; at map coordinates of 6e6 m that is 4e-9 m)',
     'reference rock volume of a column = exact area x (surface - bottom of the lowest layer) when positive',
     'refine() only on regions where the region and every neighbour of it is 3- or 4-sided (documented requirement)',
     'bisect_edge_columns = the columns of the transition region, i.e. the outside columns that the same refinement '
@@ -59,6 +61,9 @@ BOUNDS = {
               'regions': 'every non-empty subset (r3x3: 511, t8: 255); samples: singles on a stride, one pair/disk/ring, full',
               'polygons': 'all 1253 (base, 0..2 mid-side nodes per side, rotation) x {decompose_columns, triangulate_column}',
               'layers': 'every subset of 3 and of 4 layers x factor 2,3,4, also with the atmosphere layer named like a subsurface layer',
+              'map coordinates': 'r3x3far, t8far (3-6 m columns at (2780000.37, 6280000.81)): singles, neighbour pairs, disks, '
+                                 'rings, full x 4 modes x 2 edge options; split_column; the polygons at rotation 0; '
+                                 'g2 with its corner refined once: corner column, its ring, both, and refine>refine',
               'compositions': 'split> on r3x3, mixed6; refine>refine on r3x3, t8 singles; polygon>refine at rotation 0, piece 0 and all'},
     'thorough': {'geometries': ['r3x3', 'r4x3', 't8', 'mixed6', 'mixed6+decomposed', 'polygons', 'layers',
                                 'r3x3+refined', 'r4x3+refined', 't8+refined', 'g7', 'g7+refined(sample)'],
@@ -88,10 +93,13 @@ def quiet():
 
 # ----------------------------------------------------------------------------------- base geometries
 
-def geo_rect(xs, ys, zs, surfaces, atmos=2):
+FAR = (2780000.37, 6280000.81)   # map coordinates of the size the shipped g1 / g2 live at
+
+
+def geo_rect(xs, ys, zs, surfaces, atmos=2, origin=(0., 0.)):
     import mulgrids
     with quiet():
-        geo = mulgrids.mulgrid().rectangular(xs, ys, zs, atmos_type=atmos)
+        geo = mulgrids.mulgrid().rectangular(xs, ys, zs, atmos_type=atmos, origin=[origin[0], origin[1], 0.])
         for i, z in surfaces:
             col = geo.columnlist[i]
             col.surface = z
@@ -101,7 +109,7 @@ def geo_rect(xs, ys, zs, surfaces, atmos=2):
     return geo
 
 
-def geo_t8():
+def geo_t8(dx=12., dy=10., origin=(0., 0.)):
     """2 x 2 squares, every square cut into two triangles (alternating diagonals), built by hand."""
     import mulgrids
     import numpy as np
@@ -114,7 +122,7 @@ def geo_t8():
                 k += 1
                 name = geo.node_name_from_number(k)
                 nm[(i, j)] = name
-                geo.add_node(mulgrids.node(name, np.array([12. * i, 10. * j])))
+                geo.add_node(mulgrids.node(name, np.array([origin[0] + dx * i, origin[1] + dy * j])))
         k = 0
         tris = []
         for j in range(2):
@@ -173,6 +181,12 @@ def geo_mixed_decomposed():
     return geo
 
 
+def geo_g2():
+    import mulgrids
+    with quiet():
+        return mulgrids.mulgrid(os.path.join(core.REPO, 'tests', 'mulgrid', 'g2.dat'))
+
+
 def geo_g7():
     import mulgrids
     with quiet():
@@ -205,6 +219,16 @@ def base(name):
         geo = geo_rect(*R3)
         with quiet():
             geo.rename_layer([' 3', ' 2', ' 1', ' 0'], [' 4', ' 3', ' 2', ' 1'])
+    elif root == 'r3x3far':
+        # columns 3-6 m wide at map coordinates, not exactly representable (so sums of products round)
+        geo = geo_rect([3.3, 5.7, 4.1], [4.3, 3.1, 5.9], R3[2], R3[3], origin=FAR)
+    elif root == 't8far':
+        geo = geo_t8(4.3, 3.1, FAR)
+    elif root == 'g2+corner':
+        # the shipped geometry at map coordinates, its south-west corner column refined once
+        geo = geo_g2()
+        with quiet():
+            geo.refine([canon_cols(geo)[0].name])
     elif root == 'r4x3':
         geo = geo_rect(*R4)
     elif root == 't8':
@@ -275,6 +299,12 @@ class Snap(object):
         xs = [p[0] for c in self.cols for p in c['poly']]
         ys = [p[1] for c in self.cols for p in c['poly']]
         self.size = float(max(max(xs) - min(xs), max(ys) - min(ys)))
+        import numpy as np
+        # 4 units in the last place of the largest coordinate
+        self.eps = 4.0 * float(np.spacing(max(abs(float(min(xs))), abs(float(max(xs))), abs(float(min(ys))),
+                                              abs(float(max(ys))), 1.0)))
+        self.perim = sum(perimeter(c['poly']) for c in self.cols)
+        self.height = max([0.0] + [float(c['surface']) - float(self.zbot) for c in self.cols if c['surface'] is not None])
         self.layers = [(l.name, l.bottom, l.top) for l in geo.layerlist]
         self.colvol = dict((c['key'], c['area'] * max(Fraction(0), G.fr(c['surface']) - G.fr(self.zbot)))
                            for c in self.cols if c['surface'] is not None)
@@ -305,9 +335,17 @@ def lib_volume(geo):
     return v
 
 
-def close(a, b, rel=1e-9):
+def close(a, b, rel=1e-9, slack=0.0):
+    """slack: absolute allowance for the rounding of new node coordinates (a mid-side node is the rounded mean
+    of two floats: at map coordinates of 6e6 that is 5e-10 m, times the length of the sides it moves)."""
     a, b = float(a), float(b)
-    return abs(a - b) <= rel * max(1.0, abs(a), abs(b))
+    return abs(a - b) <= rel * max(1.0, abs(a), abs(b)) + slack
+
+
+def perimeter(pg):
+    import math
+    n = len(pg)
+    return sum(math.hypot(float(pg[i][0] - pg[(i + 1) % n][0]), float(pg[i][1] - pg[(i + 1) % n][1])) for i in range(n))
 
 
 _lattice_cache = {}
@@ -342,17 +380,17 @@ def judge(before, geo, connections=True, stats=None):
             break
     # totals
     total = sum((a['area'] for a in after.values()), Fraction(0))
-    if not close(total, before.area):
+    if not close(total, before.area, slack=before.eps * before.perim):
         out.append(('total-area', 'total plan area %r -> %r' % (float(before.area), float(total))))
-    if not close(geo.area, total):
+    if not close(geo.area, total, slack=before.eps * before.perim):
         out.append(('library-area', "geo.area = %r but the columns' polygons add up to %r" % (float(geo.area), float(total))))
     zbot = geo.layerlist[-1].bottom
     vol = ref_volume(after.values(), zbot)
-    if not close(vol, before.volume):
+    if not close(vol, before.volume, slack=before.eps * before.perim * before.height):
         out.append(('total-volume', 'total rock volume %r -> %r' % (float(before.volume), float(vol))))
     try:
         lv = lib_volume(geo)
-        if not close(lv, vol):
+        if not close(lv, vol, slack=before.eps * before.perim * before.height):
             out.append(('library-volume', "sum of the library's block volumes = %r but the reference volume is %r"
                         % (float(lv), float(vol))))
     except Exception as e:
@@ -361,7 +399,7 @@ def judge(before, geo, connections=True, stats=None):
     bykey = {}
     for cid, a in after.items():
         bykey.setdefault(a['key'], []).append(cid)
-    tol = 1e-9 * max(1.0, before.size)
+    tol = max(1e-9 * max(1.0, before.size), before.eps)
     changed = 0
     nlat = 0
     on_side = 0
@@ -377,7 +415,7 @@ def judge(before, geo, connections=True, stats=None):
         changed += 1
         kids = m.columns_within(o['poly'], tol)
         ka = sum((after[k]['area'] for k in kids), Fraction(0))
-        if not close(ka, o['area']):
+        if not close(ka, o['area'], slack=before.eps * 4 * perimeter(o['poly'])):
             out.append(('children-area', 'a %d-sided column of area %r is replaced by %d column(s) inside it of total '
                         'area %r' % (o['n'], float(o['area']), len(kids), float(ka))))
         for k in kids:
@@ -415,7 +453,13 @@ def judge(before, geo, connections=True, stats=None):
             out.append(('lattice-outside-parent', '%d interior point(s) of an old column lie in a new column that is '
                         'not contained in it' % strays))
     # conformity
-    hang = m.hanging_nodes(HANG_TOL)
+    # (nodes of the columns that are not old columns; an untouched column's own nodes were conforming before)
+    oldkeys = set(o['key'] for o in before.cols)
+    newnodes = set()
+    for cid, a in after.items():
+        if a['key'] not in oldkeys:
+            newnodes.update(m.columns[cid])
+    hang = m.hanging_nodes(HANG_TOL, only_nodes=newnodes)
     if hang:
         out.append(('hanging-node', '%d node(s) lie in the interior of a side they are not an end of' % len(hang)))
     if m.overfull_edges():
@@ -484,6 +528,12 @@ def regions_for(geo, how):
         for i in range(n):
             add([i])
         return out
+    if how == 'corner':
+        # the columns nearest the south-west corner: the first one, its ring, the ring with it
+        add([0])
+        add(sorted(nbr[0]))
+        add([0] + sorted(nbr[0]))
+        return out
     if how == 'families':
         for i in range(n):
             add([i])
@@ -542,12 +592,15 @@ def polygon_cases():
     return cases
 
 
-def geo_polygon(bname, E, r):
+def geo_polygon(bname, E, r, far=False):
     """The polygon (base + E[i] straight mid-side nodes on side i: one at the middle, two at the quarter points -
     exact in binary; node list rotated by r) with one outer neighbour quadrilateral on every side."""
     import mulgrids
     import numpy as np
     basepts = [np.array([float(x), float(y)]) for x, y in BASES[bname]]
+    if far:
+        # about one eighth of the size (5 m), at map coordinates
+        basepts = [0.13 * p + np.array(FAR) for p in basepts]
     m = len(basepts)
     with quiet():
         geo = mulgrids.mulgrid(convention=0, atmos_type=2)
@@ -652,6 +705,14 @@ def compose_cases(tier):
             for piece in list(range(k)) + ['all']:
                 for b in (False, True):
                     cases.append(dict(c, then={'op': 'refine', 'bisect': b, 'piece': piece}))
+    # the shipped geometry at map coordinates: its corner, refined once in the base, twice and three times here
+    for b in ([False] if tier == 'quick' else [False, True]):
+        cases.append({'op': 'refine', 'geo': 'g2+corner', 'region': [0], 'bisect': b,
+                      'then': {'op': 'refine', 'bisect': b, 'piece': 'all'}})
+    for g in ('r3x3far', 't8far'):
+        for c in refine_cases(g, 'singles', bisects=[False, True], edge_options=(False,)):
+            if c['op'] == 'refine':
+                cases.append(dict(c, then={'op': 'refine', 'bisect': False, 'piece': 'all'}))
     for bname, E, r in polygon_cases():
         if r != 0 and tier == 'quick':
             continue
@@ -684,8 +745,9 @@ def run_case(case):
         return [], False, 'build-ok', stats
     site = SITE[kind]
     if kind in ('decompose', 'triangulate'):
-        geo, cname = geo_polygon(case['base'], case['mids'], case['rot'])
-        klass = '%s+%dmid%s' % (case['base'], sum(case['mids']), ',two-on-a-side' if 2 in case['mids'] else '')
+        geo, cname = geo_polygon(case['base'], case['mids'], case['rot'], far=bool(case.get('far')))
+        klass = '%s+%dmid%s%s' % (case['base'], sum(case['mids']), ',two-on-a-side' if 2 in case['mids'] else '',
+                                  ',map-coordinates' if case.get('far') else '')
     else:
         geo = copy.deepcopy(base(case['geo']))
         klass = ''
@@ -700,6 +762,8 @@ def run_case(case):
                 shapes = sorted(set(len(cols[i].node) for i in case['region']))
                 klass = 'bisect=%s,edge=%s,%s' % (case['bisect'], 'yes' if case.get('edge') else 'no',
                                                  '+'.join({3: 'tri', 4: 'quad'}.get(s, str(s)) for s in shapes))
+                if case['geo'].endswith('far') or case['geo'].startswith('g2'):
+                    klass += ',map-coordinates'
                 edge = []
                 if case.get('edge'):
                     edge = transition_columns(case, before)
@@ -840,7 +904,7 @@ def transition_columns(case, before):
     return [i for i, k in enumerate(keys) if i not in region and k not in left]
 
 
-def refine_cases(gname, how, bisects=BISECT, edge_options=(False, True)):
+def refine_cases(gname, how, bisects=BISECT, edge_options=(False, True), whole=True):
     geo = base(gname)
     cols, nbr = adjacency(geo)
     n = len(cols)
@@ -861,7 +925,7 @@ def refine_cases(gname, how, bisects=BISECT, edge_options=(False, True)):
                         continue
                     c['edge'] = True
                 cases.append(c)
-    if all(len(c.node) in (3, 4) for c in cols):
+    if whole and all(len(c.node) in (3, 4) for c in cols):
         for b in bisects:
             cases.append({'op': 'refine_all', 'geo': gname, 'bisect': b})
     return cases
@@ -914,6 +978,17 @@ def all_cases(tier):
     family(layer_cases, 'r4x3')
     family(layer_cases, 't8')
     family(layer_cases, 'r3x3n')
+    # the same small geometries with columns of 3-6 m at map coordinates (2.78e6, 6.28e6), and the shipped
+    # geometry that lives there, refined in its corner
+    family(refine_cases, 'r3x3far', 'families' if tier == 'quick' else 'all')
+    family(refine_cases, 't8far', 'families' if tier == 'quick' else 'all')
+    family(split_cases, 'r3x3far')
+    for bname, E, r in polygon_cases():
+        if r == 0 or tier != 'quick':
+            for op in ('decompose', 'triangulate'):
+                cases.append({'op': op, 'base': bname, 'mids': E, 'rot': r, 'far': True})
+    family(refine_cases, 'g2+corner', 'corner', bisects=[False] if tier == 'quick' else BISECT, edge_options=(False,),
+           whole=(tier != 'quick'))
     try:
         with quiet():
             cases.extend(compose_cases(tier))
